@@ -17,6 +17,8 @@ import (
 //     the default clause is the empty list), and of the `switch c` of lex.consumeIdent;
 //   - ident_chars: the labels of the clause of consumeIdent's switch that appends to the identifier;
 //   - the keys of the `keywords` map (grammar_parse.go) and of the `operators` map (grammar.go);
+//   - (c19Round2) the guard chain and the line accesses of errorStack.errorMessage, the statement skeletons of
+//     Parser.ParseFile / Parser.ParseReader (limiter protocol) and the initialiser of errorStack.files;
 //   - the statement skeleton of parseFileInput (grammar_parse.go) in source order and the way its caller
 //     Parser.parseAndHandleErrors (parser.go) uses the returned *FileInput on both return paths, plus the
 //     list of Parser methods that reach the parser through parseAndHandleErrors (see c19Entry).
@@ -172,6 +174,7 @@ func init() {
 		b.WriteString("Definition keywords : list string := " + coqStringList(mapKeys(fp, "keywords")) + ".\n")
 		b.WriteString("Definition operators : list string := " + coqStringList(mapKeys(fg, "operators")) + ".\n")
 		c19Entry(&b, fp)
+		c19Round2(&b)
 		return b.String()
 	}
 }
@@ -396,4 +399,246 @@ func c19Entry(b *strings.Builder, fp *ast.File) {
 	}
 	b.WriteString("Definition entry_points : list string := " + coqStringList(entries) + ".\n")
 	b.WriteString("Definition parse_file_input_callers : list string := " + coqStringList(direct) + ".\n")
+}
+
+// c19Round2 translates the three places outside the recursive-descent parser that "parsing fails with a positioned
+// error, never a crash or a hang" also rests on:
+//
+//	error_message_guards : the if / else-if chain of errorStack.errorMessage (errors.go) that follows
+//	    `charsBefore := frame.Column - 1`, one (condition, action, n) per branch in source order;
+//	    condition: "lt_zero" (charsBefore < 0) or "<op>_len" with op in lt le eq ge gt (charsBefore <op> len(line));
+//	    action: "set_zero" (charsBefore = 0), "pad" (line += n spaces), "short" (return stack.ShortError())
+//	error_message_plain_accesses / error_message_coloured_accesses : every index / slice expression on `line` in
+//	    the arguments of the plain / the coloured fmt.Sprintf: "slice_to" line[:charsBefore], "index"
+//	    line[charsBefore], "slice_from_next" line[charsBefore+1:]
+//	parse_file_steps / parse_reader_steps : the top-level statements of Parser.ParseFile / Parser.ParseReader:
+//	    "acquire" p.limiter.Acquire(), "defer_release" defer p.limiter.Release(), "release" p.limiter.Release(),
+//	    "parse" (err := parsing), "return_if_err" if err != nil { return ... }, "interpret" (err = interpretAll),
+//	    "annotate_if_err" if err != nil { re-open; p.annotate }, "return"
+//	error_files_init : "fresh_map" when errorStack.file initialises stack.files with a new map, "shared:<expr>" when
+//	    with anything else (a package-level map is shared by every goroutine that reports an error);
+//	error_files_assignments : the number of assignments to a `.files` field in errors.go.
+//
+// Every other shape fails closed.
+func c19Round2(b *strings.Builder) {
+	_, fe := parseFile("src/parse/asp/errors.go")
+	_, fparser := parseFile("src/parse/asp/parser.go")
+	str := func(n ast.Node) string {
+		if n == nil {
+			return ""
+		}
+		var sb strings.Builder
+		if err := printer.Fprint(&sb, token.NewFileSet(), n); err != nil {
+			failShape("cannot print a node: %v", err)
+		}
+		return sb.String()
+	}
+	triple := func(a, c string, n int) string {
+		return "(" + strconv.Quote(a) + ", " + strconv.Quote(c) + ", " + strconv.Itoa(n) + "%N)"
+	}
+
+	// --- errorStack.errorMessage ---------------------------------------------------------------------
+	em := findFunc(fe, "errorStack", "errorMessage")
+	if len(em.Body.List) != 3 || str(em.Body.List[0]) != "frame := stack.Stack[0]" || str(em.Body.List[2]) != "return stack.err.Error()" {
+		failShape("errorMessage: not `frame := stack.Stack[0]; if ... { ... }; return stack.err.Error()`")
+	}
+	outer, ok := em.Body.List[1].(*ast.IfStmt)
+	if !ok || outer.Else != nil || str(outer.Init) != "before, line, after := stack.readLine(stack.Readers[0], frame.Line-1)" ||
+		str(outer.Cond) != `line != "" || before != "" || after != ""` {
+		failShape("errorMessage: the readLine guard has an unknown shape")
+	}
+	body := outer.Body.List
+	if len(body) != 5 || str(body[0]) != "charsBefore := frame.Column - 1" || str(body[2]) != `spaces := strings.Repeat(" ", charsBefore)` {
+		failShape("errorMessage: body is not `charsBefore := ...; if-chain; spaces := ...; if !coloured { return }; return`")
+	}
+	var guards []string
+	for node, _ := body[1].(*ast.IfStmt); ; {
+		if node == nil {
+			failShape("errorMessage: statement after charsBefore is not an if chain")
+		}
+		if node.Init != nil {
+			failShape("errorMessage: guard with an init statement")
+		}
+		be, ok := node.Cond.(*ast.BinaryExpr)
+		if !ok || str(be.X) != "charsBefore" {
+			failShape("errorMessage: guard condition %s is not a comparison of charsBefore", str(node.Cond))
+		}
+		ops := map[token.Token]string{token.LSS: "lt", token.LEQ: "le", token.EQL: "eq", token.GEQ: "ge", token.GTR: "gt"}
+		op, ok := ops[be.Op]
+		if !ok {
+			failShape("errorMessage: guard operator %s", be.Op)
+		}
+		var cond string
+		switch str(be.Y) {
+		case "0":
+			if op != "lt" {
+				failShape("errorMessage: guard %s (only charsBefore < 0 is known against 0)", str(node.Cond))
+			}
+			cond = "lt_zero"
+		case "len(line)":
+			cond = op + "_len"
+		default:
+			failShape("errorMessage: guard compares charsBefore with %s", str(be.Y))
+		}
+		if len(node.Body.List) != 1 {
+			failShape("errorMessage: guard %s has %d statements", str(node.Cond), len(node.Body.List))
+		}
+		switch act := str(node.Body.List[0]); {
+		case act == "charsBefore = 0":
+			guards = append(guards, triple(cond, "set_zero", 0))
+		case act == "return stack.ShortError()":
+			guards = append(guards, triple(cond, "short", 0))
+		case strings.HasPrefix(act, `line += "`) && strings.HasSuffix(act, `"`) && strings.Trim(act[len(`line += "`):len(act)-1], " ") == "":
+			guards = append(guards, triple(cond, "pad", len(act)-len(`line += "`)-1))
+		default:
+			failShape("errorMessage: guard %s has the unknown action %s", str(node.Cond), act)
+		}
+		if node.Else == nil {
+			break
+		}
+		next, ok := node.Else.(*ast.IfStmt)
+		if !ok {
+			failShape("errorMessage: the guard chain ends with a plain else")
+		}
+		node = next
+	}
+	b.WriteString("Definition error_message_guards : list (string * string * N) := [" + strings.Join(guards, "; ") + "].\n")
+	accesses := func(ret ast.Stmt, what string) []string {
+		rs, ok := ret.(*ast.ReturnStmt)
+		if !ok || len(rs.Results) != 1 {
+			failShape("errorMessage: the %s return has an unknown shape", what)
+		}
+		call, ok := rs.Results[0].(*ast.CallExpr)
+		if !ok || str(call.Fun) != "fmt.Sprintf" {
+			failShape("errorMessage: the %s return is not fmt.Sprintf(...)", what)
+		}
+		out := []string{}
+		for _, a := range call.Args {
+			ast.Inspect(a, func(n ast.Node) bool {
+				switch n.(type) {
+				case *ast.IndexExpr, *ast.SliceExpr:
+					switch str(n) {
+					case "line[:charsBefore]":
+						out = append(out, "slice_to")
+					case "line[charsBefore]":
+						out = append(out, "index")
+					case "line[charsBefore+1:]":
+						out = append(out, "slice_from_next")
+					default:
+						failShape("errorMessage: unknown index/slice expression %s in the %s message", str(n), what)
+					}
+					return false
+				case *ast.CallExpr:
+					failShape("errorMessage: call %s inside the %s message", str(n), what)
+				}
+				return true
+			})
+		}
+		return out
+	}
+	plain, ok := body[3].(*ast.IfStmt)
+	if !ok || plain.Init != nil || plain.Else != nil || str(plain.Cond) != "!cli.ShowColouredOutput" || len(plain.Body.List) != 1 {
+		failShape("errorMessage: `if !cli.ShowColouredOutput { return ... }` not found")
+	}
+	b.WriteString("Definition error_message_plain_accesses : list string := " + coqStringList(accesses(plain.Body.List[0], "plain")) + ".\n")
+	b.WriteString("Definition error_message_coloured_accesses : list string := " + coqStringList(accesses(body[4], "coloured")) + ".\n")
+
+	// --- Parser.ParseFile / Parser.ParseReader: the limiter protocol ---------------------------------------
+	limiterSteps := func(name string) []string {
+		fd := findFunc(fparser, "Parser", name)
+		var steps []string
+		for i, st := range fd.Body.List {
+			t := str(st)
+			switch x := st.(type) {
+			case *ast.ExprStmt:
+				switch t {
+				case "p.limiter.Acquire()":
+					steps = append(steps, "acquire")
+				case "p.limiter.Release()":
+					steps = append(steps, "release")
+				default:
+					failShape("Parser.%s: statement %d (%s) has an unknown shape", name, i, t)
+				}
+			case *ast.DeferStmt:
+				if t != "defer p.limiter.Release()" {
+					failShape("Parser.%s: statement %d is a defer of an unknown shape", name, i)
+				}
+				steps = append(steps, "defer_release")
+			case *ast.AssignStmt:
+				switch {
+				case t == "statements, err := p.parse(fs, filename)" || t == "stmts, err := p.parseAndHandleErrors(r)":
+					steps = append(steps, "parse")
+				case strings.HasPrefix(t, "_, err = p.interpreter.interpretAll("):
+					steps = append(steps, "interpret")
+				default:
+					failShape("Parser.%s: statement %d (%s) is an assignment of an unknown shape", name, i, t)
+				}
+			case *ast.IfStmt:
+				if x.Init != nil || x.Else != nil || str(x.Cond) != "err != nil" {
+					failShape("Parser.%s: statement %d is an if of an unknown shape", name, i)
+				}
+				if len(x.Body.List) == 1 {
+					if _, ok := x.Body.List[0].(*ast.ReturnStmt); ok {
+						steps = append(steps, "return_if_err")
+						continue
+					}
+				}
+				for _, s := range x.Body.List {
+					if ts := str(s); ts != "f, _ := p.open(fs, filename)" && ts != "p.annotate(err, f)" {
+						failShape("Parser.%s: statement %d: unknown statement %s on the error path", name, i, ts)
+					}
+				}
+				steps = append(steps, "annotate_if_err")
+			case *ast.ReturnStmt:
+				steps = append(steps, "return")
+			default:
+				failShape("Parser.%s: statement %d has an unknown shape", name, i)
+			}
+		}
+		if len(steps) == 0 || steps[len(steps)-1] != "return" {
+			failShape("Parser.%s does not end with a return", name)
+		}
+		return steps
+	}
+	b.WriteString("Definition parse_file_steps : list string := " + coqStringList(limiterSteps("ParseFile")) + ".\n")
+	b.WriteString("Definition parse_reader_steps : list string := " + coqStringList(limiterSteps("ParseReader")) + ".\n")
+
+	// --- errorStack.file: who owns the files map -----------------------------------------------------------
+	ff := findFunc(fe, "errorStack", "file")
+	if len(ff.Body.List) == 0 {
+		failShape("errorStack.file: empty body")
+	}
+	init, ok := ff.Body.List[0].(*ast.IfStmt)
+	if !ok || init.Init != nil || init.Else != nil || str(init.Cond) != "stack.files == nil" || len(init.Body.List) != 1 {
+		failShape("errorStack.file does not start with `if stack.files == nil { stack.files = ... }`")
+	}
+	as, ok := init.Body.List[0].(*ast.AssignStmt)
+	if !ok || as.Tok != token.ASSIGN || len(as.Lhs) != 1 || str(as.Lhs[0]) != "stack.files" || len(as.Rhs) != 1 {
+		failShape("errorStack.file: the initialiser is not an assignment to stack.files")
+	}
+	filesInit := ""
+	switch rhs := str(as.Rhs[0]); rhs {
+	case "map[string]*File{}", "make(map[string]*File)":
+		filesInit = "fresh_map"
+	default:
+		filesInit = "shared:" + rhs
+	}
+	nAssign := 0
+	ast.Inspect(fe, func(n ast.Node) bool {
+		switch x := n.(type) {
+		case *ast.AssignStmt:
+			for _, l := range x.Lhs {
+				if sel, ok := l.(*ast.SelectorExpr); ok && sel.Sel.Name == "files" {
+					nAssign++
+				}
+			}
+		case *ast.KeyValueExpr:
+			if id, ok := x.Key.(*ast.Ident); ok && id.Name == "files" {
+				nAssign++
+			}
+		}
+		return true
+	})
+	b.WriteString("Definition error_files_init : string := " + strconv.Quote(filesInit) + ".\n")
+	b.WriteString("Definition error_files_assignments : N := " + strconv.Itoa(nAssign) + "%N.\n")
 }
